@@ -11,6 +11,8 @@ use crate::parser::{ParserContext, ParserOutputSink, TreeBuilderSimulator};
 pub(crate) const TS: u16 = 1; // tag_start is Some
 pub(crate) const TNS: u16 = 2; // tag_name_start / tag_name_hash / is_in_end_tag describe the tag being named
 pub(crate) const NAMED: u16 = 4; // finish_tag_name has run for the tag being scanned
+pub(crate) const NOTEND: u16 = 8; // the end-tag marker is clear (create_start_tag relies on it)
+pub(crate) const ENDTAG: u16 = 16; // the tag being named is an end tag (marker set)
 
 /// longest look-ahead sequence of the DSL (checked against the generated value)
 pub(crate) const MAX_LOOKAHEAD: usize = 7;
@@ -76,10 +78,16 @@ pub(crate) fn any_text_type() -> TextType {
 /// `hold_ok` = the state lies between a '<' and the end of a tag name (the only states that may hold
 /// a tag start back); `seq` = the state has look-ahead arms (they overwrite ch_sequence_matching_start
 /// before reading it).
-pub(crate) fn inv(l: &TagScanner<HintSink>, req: u16, hold_ok: bool, seq: bool, input: &[u8]) -> bool {
+pub(crate) fn inv(l: &TagScanner<HintSink>, req: u16, hold_ok: bool, seq: bool, dist: isize, input: &[u8]) -> bool {
     let n = input.len();
     let np = l.next_pos;
     if np > n {
+        return false;
+    }
+    if req & NOTEND != 0 && req & ENDTAG == 0 && l.is_in_end_tag {
+        return false;
+    }
+    if req & ENDTAG != 0 && !l.is_in_end_tag {
         return false;
     }
     if !seq && l.ch_sequence_matching_start.is_some() {
@@ -103,6 +111,9 @@ pub(crate) fn inv(l: &TagScanner<HintSink>, req: u16, hold_ok: bool, seq: bool, 
             if !(t < np && input[t] == b'<') {
                 return false;
             }
+            if dist >= 0 && np - t != dist as usize {
+                return false;
+            }
             if req & TNS != 0 {
                 let want = if l.is_in_end_tag { t + 2 } else { t + 1 };
                 if !(l.tag_name_start == want && l.tag_name_start < np) {
@@ -117,9 +128,12 @@ pub(crate) fn inv(l: &TagScanner<HintSink>, req: u16, hold_ok: bool, seq: bool, 
     true
 }
 
-pub(crate) fn any_scanner(req: u16, hold_ok: bool, seq: bool, input: &[u8]) -> TagScanner<HintSink> {
+pub(crate) fn any_scanner(req: u16, hold_ok: bool, seq: bool, dist: isize, input: &[u8], fixed_pos: Option<usize>) -> TagScanner<HintSink> {
     let mut l = TagScanner::<HintSink>::new();
-    l.next_pos = kani::any();
+    l.next_pos = match fixed_pos {
+        Some(p) => p,
+        None => kani::any(),
+    };
     l.is_last_input = kani::any();
     l.tag_start = if kani::any() { Some(kani::any()) } else { None };
     l.ch_sequence_matching_start = if kani::any() { Some(kani::any()) } else { None };
@@ -131,7 +145,7 @@ pub(crate) fn any_scanner(req: u16, hold_ok: bool, seq: bool, input: &[u8]) -> T
     l.closing_quote = if kani::any() { b'"' } else { b'\'' };
     l.pending_text_type_change = if kani::any() { Some(any_text_type()) } else { None };
     l.last_text_type = any_text_type();
-    kani::assume(inv(&l, req, hold_ok, seq, input));
+    kani::assume(inv(&l, req, hold_ok, seq, dist, input));
     l
 }
 
@@ -142,6 +156,8 @@ pub(crate) trait Tables {
     /// (requirement flags, may hold a tag start, has look-ahead arms, has an appropriate-end-tag gate)
     fn info(sid: u16) -> (u16, bool, bool, bool);
     fn is_succ(from: u16, to: u16) -> bool;
+    /// exact next_pos - tag_start at the state's entry when the DSL determines it, else -1
+    fn dist(sid: u16) -> isize;
 }
 
 pub(crate) struct Step<const NB: usize> {
@@ -154,12 +170,14 @@ pub(crate) struct Step<const NB: usize> {
     pub pre_last_hash: LocalNameHash,
 }
 
-pub(crate) fn pre_step<T: Tables, const NB: usize>(sid: u16, foreign: bool) -> Step<NB> {
+/// `rem` >= 0: reduction for states with deep #[inline] chains — the chunk has exactly NB bytes of which
+/// exactly `rem` are unread, so the inlined loops unroll concretely (DESIGN §3.5)
+pub(crate) fn pre_step<T: Tables, const NB: usize>(sid: u16, foreign: bool, rem: isize) -> Step<NB> {
     let input: [u8; NB] = kani::any();
-    let n: usize = kani::any();
+    let n: usize = if rem >= 0 { NB } else { kani::any() };
     kani::assume(n <= NB);
     let (req, hold_ok, seq, _) = T::info(sid);
-    let l = any_scanner(req, hold_ok, seq, &input[..n]);
+    let l = any_scanner(req, hold_ok, seq, T::dist(sid), &input[..n], if rem >= 0 { Some(NB - rem as usize) } else { None });
     let ctx = ParserContext {
         output_sink: HintSink { hints: 0, last_is_end: false, last_is_hash: false, lex_after_hint: kani::any() },
         tree_builder_simulator: if foreign {
@@ -202,7 +220,7 @@ pub(crate) fn post_step<T: Tables, const NB: usize>(st: Step<NB>, r: StateResult
                 assert!(l.tag_start.is_none(), "[C09] outside '<'..tag-name no tag start is held back");
             }
             assert!(l.ch_sequence_matching_start.is_none(), "[C09] no look-ahead is pending after a transition");
-            assert!(inv(&l, nreq, nhold, nseq, input), "[C01,C09] the successor state's representation invariant holds");
+            assert!(inv(&l, nreq, nhold, nseq, T::dist(nid), input), "[C01,C09] the successor state's representation invariant holds");
             if hints == 1 {
                 assert!(!l.is_in_end_tag, "[C06] the end-tag marker is reset when the tag name is complete");
             }
@@ -224,7 +242,13 @@ pub(crate) fn post_step<T: Tables, const NB: usize>(st: Step<NB>, r: StateResult
                         out = OUT_EOF;
                     } else {
                         out = OUT_BREAK;
-                        assert!(l.next_pos == n - consumed, "[C02,C14] cursor re-based by exactly the consumed byte count");
+                        let (_, _, sseq, _) = T::info(sid);
+                        if sseq || l.ch_sequence_matching_start.is_some() {
+                            // a break inside a look-ahead rewinds to the first byte of the sequence
+                            assert!(l.next_pos <= n - consumed, "[C02,C09] cursor re-based; at most a look-ahead is re-read");
+                        } else {
+                            assert!(l.next_pos == n - consumed, "[C02,C14] cursor re-based by exactly the consumed byte count");
+                        }
                         // C09: what is held back is the start of one unfinished tag or a short look-ahead
                         match (l.tag_start, l.ch_sequence_matching_start) {
                             (None, None) => assert!(consumed == n, "[C09] nothing is held back when no tag or look-ahead is open"),
@@ -250,14 +274,14 @@ pub(crate) fn post_step<T: Tables, const NB: usize>(st: Step<NB>, r: StateResult
                             l2.tag_name_start = l.tag_name_start;
                             l2.is_in_end_tag = l.is_in_end_tag;
                             l2.pending_text_type_change = l.pending_text_type_change;
-                            assert!(inv(&l2, nreq, nhold, true, &input[consumed..]), "[C02,C09] the re-based state satisfies the representation invariant over the rest of the chunk");
+                            assert!(inv(&l2, nreq, nhold, true, if nid == sid { T::dist(nid) } else { -1 }, &input[consumed..]), "[C02,C09] the re-based state satisfies the representation invariant over the rest of the chunk");
                             core::mem::forget(l2);
                         }
                     }
                 }
                 ActionError::ParserDirectiveChangeRequired(_, bm) => {
                     out = OUT_SWITCH;
-                    assert!(hints == 1 || !ctx.output_sink.lex_after_hint, "[C06] a switch to the lexer follows a tag hint or an unhandled tree-builder request");
+                    assert!(hints == 0 || ctx.output_sink.lex_after_hint, "[C06] after a tag hint the scanner switches to the lexer only if the sink asked for it");
                     match pre_tag_start {
                         Some(t) => assert!(bm.pos == t, "[C06] the lexer restarts at the '<' of the hinted tag"),
                         None => assert!(bm.pos < n && input[bm.pos] == b'<', "[C06] the lexer restarts at the '<' of the hinted tag"),
